@@ -129,7 +129,7 @@ Proof. vm_compute. repeat split. Qed.
 
 (** reciprocal-rank fusion: over the UNION of ids, the sum of 1/(k + rank) over the lists that hold
     the id, ranks counted from 0 in best-first order of each list *)
-From Comet Require Import Proofs.FusionKeysP.
+From Comet Require Import Proofs.FusionKeysP Model.XSort Proofs.XSortP.
 Theorem C19_rrf_over_union : forall k v t j, NoDup (map fst v) -> NoDup (map fst t) ->
   lookup j (fuse_rrf k v t) =
   match lookup j (ranks true v), lookup j (ranks false t) with
@@ -154,6 +154,23 @@ Theorem C19_ranks_are_best_first_positions : forall (asc : bool) (m : smap),
   map snd (ranks asc m) = map Z.of_nat (seq 0 (length m)).
 Proof. exact ranks_are_positions. Qed.
 Print Assumptions C19_ranks_are_best_first_positions.
+
+(** the same for the exchange sort of scoreMapToRanks exactly as fusion.go writes it (Model/XSort.v), for
+    EVERY iteration order of the map and every score -- NaN and infinities included, where the order "by key"
+    above says nothing: each id gets one of the positions 0..n-1, and an id whose score is strictly better in
+    Go's own float comparison never gets a later position than a worse one *)
+Theorem C19_exchange_sort_ranks_best_first : forall (asc : bool) (m : list (Z * Z)),
+  let sorted := xsort (better64 asc) m in
+  Permutation m sorted /\
+  StronglySorted (fun a b => better64 asc b a = false) sorted /\
+  map fst (xranks asc m) = map fst sorted /\
+  map snd (xranks asc m) = map Z.of_nat (seq 0 (length m)).
+Proof. exact xranks_best_first. Qed.
+Print Assumptions C19_exchange_sort_ranks_best_first.
+
+Example C19_exchange_sort_with_nan_and_infinity :
+  map fst (xranks true [(1, 9218868437227405312); (2, F64.nan); (3, F64.one); (4, 0); (5, F64.one)]) = [4; 2; 3; 5; 1].
+Proof. exact xranks_example. Qed.
 
 (** whatever the fusion kind, a fused id comes from one of the two inputs *)
 Theorem C19_fused_ids_come_from_inputs : forall kind vw tw k v t j,
